@@ -23,6 +23,7 @@ import (
 	"github.com/google/badwolf/bql/lexer"
 	"github.com/google/badwolf/bql/table"
 	"github.com/google/badwolf/triple/literal"
+	"github.com/google/badwolf/triple/predicate"
 )
 
 // Evaluator interface computes the evaluation of a boolean expression.
@@ -137,6 +138,16 @@ func compareCells(c1, c2 *table.Cell) (int, bool) {
 	}
 	if c1.T != nil && c2.T != nil {
 		return sign(c1.T.Before(*c2.T), c1.T.After(*c2.T)), true
+	}
+	if c1.P != nil && c2.P != nil && c1.P.ID() == c2.P.ID() && c1.P.Type() == c2.P.Type() {
+		if c1.P.Type() == predicate.Immutable {
+			return 0, true
+		}
+		t1, err1 := c1.P.TimeAnchor()
+		t2, err2 := c2.P.TimeAnchor()
+		if err1 == nil && err2 == nil {
+			return sign(t1.Before(*t2), t1.After(*t2)), true
+		}
 	}
 	if c1.L != nil && c2.L != nil && c1.L.Type() == c2.L.Type() {
 		switch c1.L.Type() {
@@ -366,6 +377,20 @@ func (e *comparisonForPredicateLiteral) Evaluate(r table.Row) (bool, error) {
 	}
 	if leftBinding.P == nil {
 		return false, nil
+	}
+	if rightPredicate, err := predicate.Parse(e.rightPredicateLiteral); err == nil && e.operation == EQ {
+		// Compare by value: the text of a temporal predicate depends on the zone
+		// its anchor is written in.
+		lp := leftBinding.P
+		if lp.ID() != rightPredicate.ID() || lp.Type() != rightPredicate.Type() {
+			return false, nil
+		}
+		if lp.Type() == predicate.Immutable {
+			return true, nil
+		}
+		lt, lErr := lp.TimeAnchor()
+		rt, rErr := rightPredicate.TimeAnchor()
+		return lErr == nil && rErr == nil && lt.Equal(*rt), nil
 	}
 
 	// comparable string expressions for left and right tokens.
